@@ -353,6 +353,12 @@ pub fn run_step(w: &mut World, pre: &Snap, a: &Act, traders: &[&str]) -> StepObs
     w.restore(pre);
     let pre_obs = observe(w, traders);
     let outcome = apply(w, a);
+    // the oracles see an operation sent with unexpected native coins as the operation itself; the coins show up in the
+    // balance deltas
+    let a = match a {
+        Act::Funded { a, .. } => a.as_ref(),
+        x => x,
+    };
     let log = w.tap.log.borrow().clone();
     let xfers = if a.sender().is_some() && !matches!(a, Act::Blk { .. }) {
         transfers(w, false)
